@@ -20,3 +20,8 @@ pub mod random;
 pub mod message;
 ///Documentation for the utils module
 pub mod util;
+
+#[cfg(feature = "verif_hooks")]
+#[allow(missing_docs)]
+/// Verification hooks (work counters, randomness draw log); feature `verif_hooks` only
+pub mod verif_hooks;
